@@ -38,6 +38,8 @@ ASSUMPTIONS = [
   "connection-down for a connection that was never announced is neither required nor forbidden",
   "after a fatal send error connection-down may be raised at once or when the socket is closed; after EOF/recv error/disconnect()/DownEvent it is due within the same step",
   "after a registry discrepancy for a datapath id has been recorded, that id is not judged again until registry and model agree (so a known finding does not mask the rest of the history)",
+  "when the newest connection of a datapath goes away while an older announced connection of the same datapath is still open, the statement can be read both ways (the survivor is its 'stale connection' or its 'most recent live connection'): the registry may hold the survivor or nothing, sendToDPID must agree with the registry",
+  "a switch answers the handshake barrier once (the quantifier's multiset); histories with a second barrier reply can be replayed but are not generated",
 ]
 EXHAUSTIVE_SCOPE = {
   "quick": ("one connection: all 24 orders of {hello, features, desc-stats, barrier outcome} x 3 barrier outcomes x every "
@@ -86,6 +88,7 @@ class _H(object):
     self.ps_seq = 0
     self.xid_seq = 0x5000
     self.once = _Once(out)
+    self.batch = 0           # number of messages queued for the read in progress
     self.before = []         # (lost, closed) per connection before the current op
     self.acted = set()       # connections that were lost/closed during the current op
     for n in ("ConnectionUp", "ConnectionDown", "PortStatus"):
@@ -162,6 +165,11 @@ class _H(object):
         self.out.violations.append({"key": exc_key(e, clause="read-raised"),
                                     "msg": "Connection.read() raised on well-formed input: %r (the task closes the connection)" % (e,)})
         self.out.label("read-raised")
+        if self.batch > 1:
+          # several messages were queued and the harness cannot tell after which one read() blew up:
+          # this connection (and its dpid in the registry) is not judged any further
+          c.m.unjudged = True
+          self.out.label("read-raised-inside-a-batch: connection not judged further")
         self._do_close(c)
         break
       if r is False:
@@ -283,7 +291,9 @@ class _H(object):
     what a peer that pipelines its messages can know."""
     acts = c.acts
     c.acts = []
+    self.batch = len(acts)
     self.pump(c)
+    self.batch = 0
     for a in acts:
       if a is not None:
         a()
